@@ -47,10 +47,10 @@ pub fn spec(id: &str) -> Option<Spec> {
          level: "exploration",
          quick_cases: 40000,
          thorough_cases: 1000000,
-         rule: "One case = one ascent_par! program whose binary relation is tagged #[ds(eqrel)] (concurrent provider ceqrel_ind: one mutex-protected union-find written by all workers, frozen old/combined pair read by all workers), one input, one run under a seeded schedule; compared on every plain relation with the explicit-closure twin (reflexive/symmetric/transitive rules written out) evaluated serially. About 15% of the cases run the serial eqrel provider instead (baseline configuration, no schedule; never counted as non-trivial). Non-trivial/distinct as for C02.",
+         rule: "One case = one ascent_par! program whose binary relation is tagged #[ds(eqrel)] (concurrent provider ceqrel_ind: one mutex-protected union-find written by all workers, frozen old/combined pair read by all workers), one input, one run under a seeded schedule; compared on every plain relation with the explicit-closure twin (reflexive/symmetric/transitive rules written out) evaluated serially. About 15% of the cases run the serial eqrel provider instead, and the cases of the ternary program eq_tern (eq(K,T,T), serial only: the provider has no concurrent implementation) always do (baseline configuration, no schedule dimension; never counted as non-trivial). Non-trivial/distinct as for C02.",
          assumptions: {
             let mut a = common_assumptions();
-            a.push("claimed for the parallel binary form only; the serial binary form runs as baseline, the ternary form (serial only) and fully-bound reads of a parallel eqrel (rejected by the parallel front end) are out of reach");
+            a.push("decided by schedule search for the parallel binary form only; the serial binary form and the serial-only ternary form run as the fault-free baseline of the same oracle (no schedule to search); fully-bound reads of a parallel eqrel (rejected by the parallel front end) and reads of a ternary eqrel with only column 2 bound (do not compile) are out of reach");
             a
          },
          expected_probes: vec!["preempt", "steal"],
